@@ -54,7 +54,7 @@ def install_contract(ctx):
     def snap_posterior(posterior_data):
         return posterior_data.copy()
 
-    def confined_to_row_and_unit_mass(posterior_data, prior_indptr, target_gram_ind, result, OLD):
+    def confined_to_row_and_unit_mass(posterior_data, prior_indptr, target_gram_ind, windows, result, OLD):
         ctx.count("contract_evaluations")
         d = np.asarray(result, dtype=np.float64) - np.asarray(OLD.before, dtype=np.float64)
         lo, hi = int(prior_indptr[target_gram_ind]), int(prior_indptr[target_gram_ind + 1])
@@ -64,7 +64,8 @@ def install_contract(ctx):
         tot = float(d.sum())
         # the posterior array is float32: each touched cell is rounded to its own ulp, which grows with the accumulated value
         touched = int(np.count_nonzero(d))
-        slack = 1e-5 + 4.0 * 2.0**-24 * touched * float(max(np.max(np.abs(result)), 1.0))
+        n_adds = max(touched, int(sum(len(w) for w in windows)), 1)  # one float32 rounding per `+=` of a window context
+        slack = 1e-5 + 2.0 * 2.0**-24 * n_adds * float(max(np.max(np.abs(result)) if np.size(result) else 0.0, 1.0))
         if np.any(d < -slack) or not (abs(tot) <= slack or abs(tot - 1.0) <= slack):
             state["violations"].append(("mass-not-0-or-1", {"row": int(target_gram_ind), "added": tot}))
         return True
@@ -82,7 +83,7 @@ def install_contract(ctx):
             old = _Old()
             old.before = snap_posterior(posterior_data)
             result = orig(posterior_data, prior_indices, prior_indptr, prior_data, n_unique_tokens, target_gram_ind, windows, kernels)
-            confined_to_row_and_unit_mass(posterior_data, prior_indptr, target_gram_ind, result, old)
+            confined_to_row_and_unit_mass(posterior_data, prior_indptr, target_gram_ind, windows, result, old)
             return result
         ctx.note("icontract not importable: em_update_matrix postcondition installed as a plain wrapper")
     for m in (m1, m2, m3, m4):
